@@ -854,8 +854,14 @@ func Run(c *gen.Ctx) error {
 		}(i)
 	}
 	wg.Wait()
-	for k := 0; k < 3; k++ {
-		pingFlood(meta)
+	lcf := &gen.CaseFile{Dir: c.OutDir, Prop: "C11", Kind: "lock", Requires: []string{"Base.Prelude", "Model.WsLock", "Corr.Corr_C11"}, Type: "wslock_case",
+		Checks: []gen.Check{{Label: "corr", Fn: "wslock_accepts"}, {Label: "mon", Fn: "wslock_mon"}, {Label: "monmodel", Fn: "wslock_monmodel"}}, Shard: 10}
+	var ldescr []any
+	for k := 0; k < 4; k++ {
+		pingFlood(meta, lcf, &ldescr, 1+k%2)
+	}
+	if err := meta.AddCaseFile(lcf, ldescr); err != nil {
+		return err
 	}
 	leaked := leakedGoroutines()
 	if len(leaked) > 0 {
